@@ -127,7 +127,7 @@ class World:
         for name in EVENTS:
             cls = getattr(self.chk.of_01, name)
             if cls in con._eventMixin_events:
-                con.addListener(cls, self.chk.recorder("con", name))
+                con.addListener(cls, self.chk.recorder("con", name), priority=1000000)
         unp = list(con.unpackers)
         def wrap(u, ty):
             def f(raw, offset=0):
@@ -219,7 +219,7 @@ class C09(Check):
                    "fewer than 2^31 xids drawn per run; every ofp_error message carries data; a read() delivers whole messages (framing is C02)",
                    "registry_exact assumes each connection's features replies name one datapath id (otherwise: known finding C09-5)"]
     rule = ("case = history of {connect, recv(c, batch of messages), lose(c, eof|select-error), disc(c), sockfail(c), sendto(d)} over <= 4 connections, "
-            "datapath ids {5,6}; corpus = 19 hand-written histories (D3, orphan, dpid change, wrong xid, send errors...), loss at each of 6 points of the handshake "
+            "datapath ids {5,6,7} and the edge ids {0, 1, 2^63, 2^64-1} (every hand-written, loss-point and 2-connection history is repeated with them, half of the generated ones use them); corpus = 19 hand-written histories (D3, orphan, dpid change, wrong xid, send errors...), loss at each of 6 points of the handshake "
             "x {eof, select error, disconnect(), send error} x {alone, beside a live connection of the same datapath} x 2 batchings, every interleaving of the 4 handshake "
             "messages (both finishing variants) with <= 2 insertions of {port_status, echo_request, packet_in, error(other xid), error(other code)}, all 24 orders of the 4 "
             "handshake messages with <= 1 insertion, every connect/up/lose order of 2 connections; generated = sampled 3-insertion interleavings and 3-connection orders "
@@ -233,7 +233,11 @@ class C09(Check):
         self.task = of_01.OpenFlow_01_Task(port=6633)
         nexus = self.core.openflow
         for name in EVENTS:
-            nexus.addListener(getattr(of_01, name), self.recorder("nexus", name))
+            nexus.addListener(getattr(of_01, name), self.recorder("nexus", name), priority=1000000)   # records the moment of the raise
+        # re-entrant application listeners (run after the recorders); what they do is part of the case: case["listeners"]
+        self.listeners = {}
+        nexus.addListener(of_01.ConnectionUp, self.app_listener("up"))
+        nexus.addListener(of_01.ConnectionDown, self.app_listener("down"))
         orig_connect = nexus._connect
         chk = self
         def connect_rec(con):
@@ -276,6 +280,31 @@ class C09(Check):
         return {"uncovered_explained": "anchored lines never executed are outside the modelled behaviour: request_description=False (of_01.py:315), the "
                 "version check unreachable through read() (:333-335), a custom arbiter returning no nexus (:349-352), `except: pass` arms (:809-810, :852-862), "
                 "the aborted-connections debug timer (:833), and the deferred-sender / partial-write / EAGAIN arms of Connection.send (:880-893, C20's business)"}
+
+    def app_listener(self, which):
+        """an application's nexus-level ConnectionUp / ConnectionDown handler that re-enters the controller:
+        "send" = con.send(...), "sendto" = core.openflow.sendToDPID(event.dpid, ...), "disc" = con.disconnect()"""
+        chk = self
+        def h(ev):
+            w, act = chk.sink[0], chk.listeners.get(which)
+            if w is None or act is None: return
+            i = w.idx(ev.connection)
+            x = 5000 + len(w.log)
+            if act == "send":
+                ev.connection.send(hdr(T_BARRIER_REQ, 8, x))
+            elif act == "disc":
+                ev.connection.disconnect()
+            elif act == "sendto":
+                d = ev.dpid
+                # the connection most recently registered under d, if it is live now (what registry_exact says the entry is)
+                exp = None
+                for e in w.log:
+                    if e[0] == "reg" and e[1] == d: exp = e[2]
+                if exp is not None and (w.cons[exp].disconnected or w.cons[exp].connect_time is None or w.cons[exp].dpid != d): exp = None
+                exp_ok = exp is not None and not w.socks[exp].broken
+                ret = w.nexus.sendToDPID(d, hdr(T_BARRIER_REQ, 8, x))
+                w.log.append(["hsendto", which, i, d, x, bool(ret), exp, exp_ok])
+        return h
 
     def recorder(self, where, name):
         chk = self
@@ -324,6 +353,7 @@ class C09(Check):
             if op["op"] == "recv":
                 for m in op["msgs"]: self.msg_bytes(m, 0)
         w = World(self)
+        self.listeners = dict(case.get("listeners") or {})
         steps, resolved, regs, states = [], [], [], []
         for op in case["ops"]:
             mark = len(w.log)
@@ -366,6 +396,7 @@ class C09(Check):
             if w.dead_task: break
         nx = self.of.generate_xid()
         w.finish()
+        self.listeners = {}
         return {"steps": steps, "resolved": resolved, "regs": regs, "states": states, "dead_task": w.dead_task,
                 "next_xid": nx, "nsteps": [len(op["msgs"]) if op["op"] == "recv" else 1 for op in case["ops"]]}
 
@@ -381,6 +412,7 @@ class C09(Check):
         return sorted(ds)
 
     def model_request2(self, case, obs):
+        if case.get("listeners"): return None                        # re-entrant listeners are outside the model: oracle only
         req = {"ops": obs["resolved"], "dpids": self.dpids_of(case)}
         cfg = os.environ.get("VERIF_C09_CFG")
         if cfg in self.CFG: req["cfg"] = self.CFG[cfg]               # manual use only: compare the unrepaired model with an unrepaired tree
@@ -389,7 +421,7 @@ class C09(Check):
     def impl_view(self, case, obs):
         if obs.get("dead_task"): return {"dead_task": obs["dead_task"]}
         final = obs["regs"][-1] if obs["regs"] else []
-        return {"steps": [[e for e in st if e[0] != "in"] for st in obs["steps"]],
+        return {"steps": [[e for e in st if e[0] not in ("in", "hsendto")] for st in obs["steps"]],
                 "reg": [[d, dict((k, v) for k, v in final if k is not None).get(d)] for d in self.dpids_of(case)],
                 "regnone": dict((str(k), v) for k, v in final).get("None"),
                 "conns": obs["states"][-1] if obs["states"] else [], "next_xid": obs["next_xid"]}
@@ -538,12 +570,57 @@ class C09(Check):
         yield {"ops": [C] + up(0, 5) + [X(0), {"op": "disc", "c": 0}, R(0, M("packet_in", 1)), X(0), {"op": "disc", "c": 7}, R(3, M("hello", 1)), S(9, 9)], "tag": "after-close"}
         yield {"ops": [C] + up(0, 5) + [{"op": "disc", "c": 0}, R(0, M("features_reply", 3, d=5), M("port_status", 9)), S(5, 1), X(0)], "tag": "msg-after-disc"}
 
+    # datapath ids are arbitrary 64-bit numbers: the histories are written with the placeholders 5, 6, 7 and re-run with the edge
+    # values (0 is a legal id and falsy in Python; 2^64-1 is the largest; 1 and 2^63 for good measure)
+    DPID_MAPS = [{5: 0, 6: 1, 7: 2}, {5: 2 ** 64 - 1, 6: 0, 7: 5}, {5: 1, 6: 2 ** 63, 7: 0}]
+
+    @staticmethod
+    def remap(case, mp):
+        def f(d): return mp.get(d, d)
+        ops = []
+        for o in case["ops"]:
+            o = dict(o)
+            if o["op"] == "sendto": o["d"] = f(o["d"])
+            elif o["op"] == "recv":
+                o["msgs"] = [dict(m, d=f(m["d"])) if m["m"] == "features_reply" else m for m in o["msgs"]]
+            ops.append(o)
+        c = dict(case); c["ops"] = ops; c["tag"] = case.get("tag", "") + "/dpid%s" % sorted(mp.items())[0][1]
+        return c
+
+    LISTENERS = [{"up": "send"}, {"up": "sendto"}, {"down": "sendto"}, {"up": "send", "down": "sendto"}, {"up": "sendto", "down": "sendto"}]
+    REENTRANT_DISC_KEY = "reentrant:up-listener-disconnects:down:without-up"
+
+    def with_listeners(self, case, ls):
+        c = dict(case); c["listeners"] = ls; c["tag"] = case.get("tag", "") + "/listeners"
+        return c
+
+    def listener_cases(self):
+        """histories run with application listeners that re-enter the controller from inside ConnectionUp / ConnectionDown
+        (oracle only: the model and the theorems assume listeners that do not re-enter)"""
+        base = list(self.specials()) + list(self.orders(2, [(5, 5), (5, 6)], [("eof", "err"), ("senderr", "disc")])) + list(self.loss_points())[::5]
+        variants = list(self.LISTENERS)
+        if common.Findings().match(self.id, self.REENTRANT_DISC_KEY):   # the ConnectionUp listener that disconnects: known finding C09-6 once registered
+            variants += [{"up": "disc"}, {"up": "disc", "down": "sendto"}]
+        for j, c in enumerate(base):
+            for t, ls in enumerate(variants):
+                c2 = self.with_listeners(c, ls)
+                yield c2 if (j + t) % 2 == 0 else self.remap(c2, self.DPID_MAPS[(j + t) % 3])
+
     def corpus(self):
+        cases = list(self._corpus())
+        return cases + list(self.listener_cases())
+
+    def _corpus(self):
         cases = list(self.specials())
         cases += list(self.loss_points())
         cases += list(self.interleavings(2, False, ["port_status", "echo_request", "packet_in", "error", "error_type"]))
         cases += list(self.interleavings(1, True, ASYNC))
-        cases += list(self.orders(2, [(5, 5), (5, 6)], [("eof", "err"), ("disc", "senderr"), ("err", "sockfail")]))
+        orders2 = list(self.orders(2, [(5, 5), (5, 6)], [("eof", "err"), ("disc", "senderr"), ("err", "sockfail")]))
+        cases += orders2
+        for mp in self.DPID_MAPS:                                    # the same histories for the edge datapath ids
+            cases += [self.remap(c, mp) for c in self.specials()]
+            cases += [self.remap(c, mp) for c in orders2]
+        cases += [self.remap(c, self.DPID_MAPS[i % 3]) for i, c in enumerate(self.loss_points())]
         return cases
 
     def random_case(self, rng, big=False):
@@ -586,6 +663,14 @@ class C09(Check):
         return {"ops": ops, "tag": "random"}
 
     def generate(self, rng, tier):
+        for c in self._generate(rng, tier):
+            r = rng.random()                                         # half of the generated histories use edge datapath ids
+            c = c if r < 0.5 else self.remap(c, self.DPID_MAPS[int((r - 0.5) * 6) % 3])
+            if c.get("tag", "").startswith("random") and rng.random() < 0.15:
+                c = self.with_listeners(c, self.LISTENERS[rng.randrange(len(self.LISTENERS))])
+            yield c
+
+    def _generate(self, rng, tier):
         if tier == "thorough":
             for c in self.interleavings(3, False, ["port_status", "echo_request", "packet_in", "error", "error_type"]): yield c
             for c in self.interleavings(2, True, ASYNC): yield c
@@ -601,9 +686,12 @@ class C09(Check):
 
     def search_cases(self, rng, tier):
         for c in self.specials(): yield c
+        for mp in self.DPID_MAPS:
+            for c in self.specials(): yield self.remap(c, mp)
         for c in self.loss_points(): yield c
         while True:
-            yield self.random_case(rng, big=True)
+            c = self.random_case(rng, big=True)
+            yield self.remap(c, self.DPID_MAPS[rng.randrange(3)]) if rng.random() < 0.5 else c
 
     # ------------------------------------------------------------------ the property itself, on the implementation's observables
     def oracle(self, case, obs):
@@ -655,10 +743,18 @@ class C09(Check):
                 elif name == "PortStatus":
                     if (tag, i) not in up_at: return "early_ps:before-up PortStatus raised for connection %d before its ConnectionUp" % i
                     ps_ev[i][tag].append(arg)
+            elif tag == "hsendto":
+                which, i, d, x, ret, exp, exp_ok = e[1:]
+                if ret != (exp is not None):
+                    return "sendto:handler sendToDPID(%s) inside a Connection%s handler returned %s; most recently registered live connection: %s" % (d, which.capitalize(), ret, exp)
+                wrote = pos > 0 and log[pos - 1][1] == ["sent", exp, T_BARRIER_REQ, x]
+                if wrote != bool(exp_ok):
+                    return "sendto:handler sendToDPID(%s) inside a Connection%s handler %s connection %s" % (d, which.capitalize(), "did not reach" if exp_ok else "wrote to", exp)
             elif tag == "closed":
                 i = e[1]
                 o = ops[k]
-                cause = (o["op"] == "lose" and o["c"] == i) or i in explicit_disc or i in broken or i in failed_connect
+                cause = (o["op"] == "lose" and o["c"] == i) or i in explicit_disc or i in broken or i in failed_connect or \
+                        (case.get("listeners") or {}).get("up") == "disc"
                 if not cause: return "close:spurious connection %d dropped by the controller although nothing in the history lost it" % i
         final = obs["states"][-1] if obs["states"] else []
         for i in range(len(final)):
@@ -718,7 +814,9 @@ class C09(Check):
         return None
 
     def finding_key(self, case, obs, failure):
-        return failure.split(" ")[0]
+        key = failure.split(" ")[0]
+        if (case.get("listeners") or {}).get("up") == "disc": key = "reentrant:up-listener-disconnects:" + key
+        return key
 
     def nontrivial(self, case, obs):
         return any(e[0] == "in" for st in obs.get("steps", []) for e in st)
